@@ -1023,6 +1023,7 @@ def check_c18(prog, rep, tier, cfg):
     c18d(prog, rep)
     c18e(prog, rep)
     c18f(prog, rep)
+    c18j(prog, rep)
     # C18.g — "the exit status is non-zero if and only if at least one file failed": every Err reaches the handler, the handler sets a
     # flag (not a count that can wrap), main selects between two constant exit codes — shared with C16.e
     from engine import AliasReport
@@ -1097,6 +1098,42 @@ def _retain_drops_only_same_file(prog, b, c):
         if not key_is_canonical(cb, t["args"][1]):
             return False
     return True
+
+
+FILE_OPENERS = ("std::fs::OpenOptions::open", "std::fs::File::open", "std::fs::File::create", "std::fs::File::create_new", "std::fs::File::open_buffered")
+
+
+def c18j(prog, rep):
+    """C18.j — "formatting many files in one invocation gives every file exactly the result it gets alone, for any number of files": a
+    file is open only while it is being processed.  Every place of the orchestrator that opens a file lies in the per-file body of
+    the batch (the closure handed to the parallel map, its closures, private helpers called only from it), so a worker holds one
+    handle at a time.  A pass that opens the files before the batch starts (to sort them by size, to fail early ..) holds one
+    descriptor per file for the whole run: beyond the process' limit every further file fails with `Too many open files` although it
+    formats fine alone, and the exit status reports a failure no file has."""
+    R = "C18.j"
+    root = FF + "exec_format::{closure#0}"
+    if not rep.check(prog.body(root) is not None, R, "anchor:per-file-body", "the per-file closure of exec_format not found"):
+        return
+    opens = []
+    for b in prog.bodies.values():
+        if not b.crate.startswith("pasfmt_orchestrator") or "::tests::" in b.npath or "::test_" in b.npath:
+            continue
+        opens += [c for c in b.calls() if (c.callee or "") in FILE_OPENERS or norm(c.t.get("resolved") or "") in FILE_OPENERS]
+    def inside(npath, depth=0):
+        """the body is the per-file closure, nested in it, or (a closure of) a private function all of whose call sites are inside"""
+        if npath == root or npath.startswith(root + "::"):
+            return True
+        fn = npath.split("::{closure")[0]
+        if fn == FF + "exec_format" or depth > 3:
+            return False
+        sites = [c for c in prog.who_calls(fn) if c.body.crate.startswith("pasfmt")]
+        return bool(sites) and all(inside(c.body.npath, depth + 1) for c in sites)
+    outside = [c for c in opens if not inside(c.body.npath)]
+    rep.check(not outside, R, "files-opened-only-in-the-per-file-body",
+              "a file is opened outside the per-file body of the batch (%s): such handles are held for all files at once, so a batch larger than the descriptor limit fails for files that format "
+              "fine alone" % sorted({short(c.body.npath) for c in outside}), where=outside[0].where() if outside else None,
+              instance={"open_sites": len(opens), "outside": sorted({short(c.body.npath) for c in outside})})
+    rep.floor(R, "file-opening call sites in the orchestrator", len(opens), 1)
 
 
 def c18f(prog, rep):
